@@ -42,7 +42,7 @@ def zeno(st):
 def gen_line(rng):
     while True:
         n = rng.choice([0, 1, 1, 2, 2, 3, 3, 4, 5, 6, 8])
-        st = [{'kind': 'source', 'ct': rng.choice(CTS), 'budget': rng.choice([None, None, 1, 3, 7, 20, 50])}]
+        st = [{'kind': 'source', 'ct': rng.choice(CTS), 'budget': rng.choice([None, None, 1, 3, 7, 20, 50, 2.5, 0.7 / 0.1, 2.1 / 0.3])}]
         for _ in range(n):
             k = rng.choice(['handler', 'processor', 'buffer'])
             if k == 'buffer':
@@ -54,7 +54,28 @@ def gen_line(rng):
         if not zeno(st):
             break
     horizon = rng.choice([5, 10, 17.5, 30, 60, 100, 300])
-    if st[0]['budget'] is not None and st[0]['budget'] <= 7 and rng.random() < 0.5:
+    x = rng.random()
+    if x < 0.06:
+        # extreme ratios on exactly representable values: a delay of 2**30 (or 2**11 with a 2**-21 source cycle) -
+        # a relative tolerance where one unit in the last place is meant would let parts go early
+        big, small = rng.choice([(2.0 ** 30, rng.choice([0.25, 0.5, 1])), (2048.0, 2.0 ** -21)])
+        st[0]['ct'] = small
+        st[0]['budget'] = rng.choice([2, 3, 5, 8])
+        st.insert(rng.randrange(1, len(st)), {'kind': 'buffer', 'cap': rng.choice([None, 2, 3, 8]), 'delay': big})
+        return {'stations': st, 'horizon': big + rng.choice([1, 4, 16]), 'scale': 'huge_delay'}
+    if x < 0.12:
+        # the whole line works at a clock value near 2**30: the budget only arrives then
+        T = 2.0 ** 30 + rng.randrange(0, 64) / 8.0
+        st[0]['budget'] = 0
+        st[0]['topups'] = [[T, rng.choice([3, 8, 20])]]
+        st[0]['topup_mode'] = rng.choice(['event', 'between'])
+        return {'stations': st, 'horizon': T + rng.choice([10, 30]), 'scale': 'late_clock'}
+    for s_ in st[1:-1]:
+        if s_['kind'] == 'processor' and s_['ct'] > 0 and rng.random() < 0.08:
+            # user code failing inside the finish callback of the k-th part; the caller catches the exception that
+            # comes out of simulate() and carries on to the same horizon
+            s_['raise_at'] = rng.choice([1, 2, 3, 5])
+    if st[0]['budget'] is not None and st[0]['budget'] <= 7 and float(st[0]['budget']).is_integer() and rng.random() < 0.5:
         # part-budget top-ups: from a user event at T, or by ordinary code between two simulate() calls split at T;
         # aimed at the interval in which the exhausted source is still making its spare part
         tops = []
@@ -76,6 +97,38 @@ def gen_line(rng):
     return {'stations': st, 'horizon': horizon}
 
 
+class HarnessError(Exception):
+    pass
+
+
+class RaiseAt:
+    """Finish callback that fails once, on the k-th part."""
+
+    def __init__(self, k):
+        self.k, self.n = k, 0
+
+    def __call__(self, dev, part):
+        self.n += 1
+        if self.n == self.k:
+            raise HarnessError('user callback failed')
+
+
+def sim_to(system, t_end, counter):
+    """simulate() up to t_end, carrying on after exceptions thrown by user callbacks."""
+    import contextlib
+    import io
+    for _ in range(50):
+        try:
+            with contextlib.redirect_stdout(io.StringIO()):
+                system.simulate(t_end - system.env.now, print_summary=False)
+            # (a run cut short by an exception leaves its end marker in the queue; a later run that reaches the
+            # marker stops there - the caller simply asks again until the clock is where it should be)
+            if system.env.now >= t_end or not counter[0]:
+                return
+        except HarnessError:
+            counter[0] += 1
+
+
 class TopUp:
     def __init__(self, src, m):
         self.src, self.m = src, m
@@ -83,6 +136,9 @@ class TopUp:
 
     def __call__(self):
         self.src.adjust_part_count(self.m)
+
+
+RAISED = [0]
 
 
 def run_line(line, tie, tie_seed):
@@ -105,6 +161,8 @@ def run_line(line, tie, tie_seed):
                 d = PartHandler(name=nm, upstream=[prev], cycle_time=s['ct'])
             elif s['kind'] == 'processor':
                 d = PartProcessor(name=nm, upstream=[prev], cycle_time=s['ct'])
+                if s.get('raise_at'):
+                    d.add_finish_processing_callback(RaiseAt(s['raise_at']))
             elif s['kind'] == 'buffer':
                 d = Buffer(name=nm, upstream=[prev], minimum_delay=s.get('delay', 0), capacity=s.get('cap'))
             else:
@@ -116,11 +174,13 @@ def run_line(line, tie, tie_seed):
             for T, m in tops:
                 system.env.schedule_event(T, devs[0].id, TopUp(devs[0], m), 5 + (m % 3) * 10)
             tops = []
+        caught = [0]
         for T, m in tops:
             if T > system.env.now:
-                system.simulate(T - system.env.now, print_summary=False)
+                sim_to(system, T, caught)
             devs[0].adjust_part_count(m)
-        system.simulate(line['horizon'] - system.env.now, print_summary=False)
+        sim_to(system, line['horizon'], caught)
+        RAISED[0] += caught[0]
     data = system.simulation_data
     obs = {}
     for j in range(1, len(devs)):
@@ -185,6 +245,11 @@ def check_line(sh, line, policies, label='random'):
             ok = False
             break
     sh.count('blocked_departures', blocked)
+    if RAISED[0]:
+        sh.count('exceptions_from_user_callbacks_caught_and_continued', RAISED[0])
+        RAISED[0] = 0
+    if line.get('scale'):
+        sh.count('lines_' + line['scale'])
     sh.count(label + '_lines')
     sh.case_done(case, blocked > 0, sample={'line': line, 'sink_count_reference': len(E[n - 1]),
                                             'blocked_departures': blocked})
